@@ -170,6 +170,8 @@ func (s *Stack) Unalias(ref string) string {
 	switch ref {
 	case "cur":
 		return s.LastRtID
+	case "curup": // the current id spelled with upper-case hex digits: NOT the current id
+		return strings.ToUpper(s.LastRtID)
 	case "bogus":
 		return "00000000-dead-beef-0000-000000000000"
 	case "empty":
@@ -455,6 +457,7 @@ type CallSpec struct {
 	Headers    map[string]string
 	Body       []byte
 	BodyReader io.Reader // if set, used instead of Body (streamed, chunked)
+	Chunked    bool      // send Body with Transfer-Encoding: chunked (length unknown to the server in advance)
 	Proc       *Proc     // process on whose behalf the call is made (cancelled when it exits)
 	// Render turns the response into the canonical result text
 	Render func(status int, hdr http.Header, body []byte) string
@@ -488,6 +491,8 @@ func (s *Stack) doCall(ctx context.Context, call *Call, cs CallSpec) {
 	if cs.BodyReader != nil {
 		rd = cs.BodyReader
 		call.wrote.Store(true) // the upload is deliberately incomplete: do not wait for it
+	} else if cs.Chunked && cs.Body != nil {
+		rd = struct{ io.Reader }{bytes.NewReader(cs.Body)}
 	}
 	req, err := http.NewRequestWithContext(httptrace.WithClientTrace(ctx, tr), cs.Method, "http://"+s.Addr+cs.Path, rd)
 	if err != nil {
